@@ -8,9 +8,10 @@ import CklVerif.Driver.SeqDate
 import CklVerif.Driver.EvalCmd
 import CklVerif.Driver.ParserCmd
 import CklVerif.Driver.LexerCmd
+import CklVerif.Driver.FrontCmd
 open Ckl
 
-def handlers : List (Sx → Option Sx) := [handleValue, handleSeqDate, handleEval, handleParser, handleLexer]
+def handlers : List (Sx → Option Sx) := [handleValue, handleSeqDate, handleEval, handleParser, handleLexer, handleFront]
 
 def dispatch (req : Sx) : Sx :=
   match handlers.findSome? (fun h => h req) with
